@@ -1,6 +1,7 @@
 import Srtla.Lemmas.SelGate
 import Srtla.Lemmas.Enhanced
 import Srtla.Lemmas.EnhancedField
+import Srtla.Lemmas.SelectFrame
 /-!
 # C11 — enhanced selection is stable, hysteretic and respects its gates
 
@@ -11,13 +12,15 @@ import Srtla.Lemmas.EnhancedField
 
 Two kinds of statements:
 
-* `C11_idempotent`, `C11_stable`, `C11_scores_reproducible` hold for EVERY `Scalar` instance — in
+* `C11_idempotent`, `C11_stable`, `C11_scores_reproducible`, and (round 2) the gate clauses
+  `C11_selected_scored_generic`, `C11_cap_excluded_generic`, `C11_cap_excluded_select`,
+  `C11_any_unconstrained_post` hold for EVERY `Scalar` instance — in
   particular for the `Float` instance the driver runs (comparisons are opaque Booleans there; no
   assumption on rounding or NaN is needed): the argument is purely about what the pass reads and
-  writes.
+  writes / which links the loop skips.
 * everything about score values (`C11_quality_range`, `C11_softcap_range`, `C11_rtt_bonus_range`,
   `C11_score_formula`, `C11_score_bounded`, `C11_leave_only_if`, `C11_cap_excluded`,
-  `C11_weak_at_2_percent`, `C11_warming_at_80_percent`) is about the scalar code interpreted in an
+  `C11_weak_at_2_percent`, `C11_warming_at_80_percent`, `C11_pass_table_factors`) is about the scalar code interpreted in an
   arbitrary linearly ordered field `F` with floor (`fieldScalar F e ninf`: exact arithmetic,
   `e` = `exp` with `ExpLaw e : ∀ x ≤ 0, 0 < e x ≤ 1`).  "Finite" is proved as boundedness in exact
   arithmetic; IEEE finiteness and the ranges are additionally asserted on the real code by the
@@ -71,13 +74,95 @@ refreshes quality caches, and a refreshed cache (`now - now < 50`) returns the v
 theorem C11_scores_reproducible (ls : List (SLink F)) (last : Option Nat) (now : Nat) (quality : Bool)
     (i : Nat) (s : F) :
     ScoredAt (enhancedSelect ls last now quality).1 now quality i s ↔ ScoredAt ls now quality i s := by
-  rw [scoredAt_iff, scoredAt_iff, enhancedSelect_fst, anyUnconstrained_map_upd, List.map_map]
+  rw [scoredAt_iff, scoredAt_iff, SelLemmas.enhancedSelect_fst, anyUnconstrained_map_upd, List.map_map]
   have h2 : (entry now quality (anyUnconstrained ls now)) ∘ (upd now quality (anyUnconstrained ls now)) =
       entry (F := F) now quality (anyUnconstrained ls now) := by
     funext c; exact entry_upd _ _ _ _
   rw [h2]
 
 end anyScalar
+
+/-! ## Gate clauses that hold for every scalar instance (incl. `Float`) -/
+
+section anyScalarGates
+variable {F : Type} [Scalar F]
+
+/-- **The selected link was scored — for EVERY scalar instance.**  Whatever `last` is, the index
+returned by the enhanced pass (the running best, or `last` kept by the hysteresis) is in range, was
+not skipped, and has an entry in the pass's score table.  No order on `F` is needed, so this is a
+statement about the `Float` code the driver runs (NaN scores included). -/
+theorem C11_selected_scored_generic (ls : List (SLink F)) (last : Option Nat) (now : Nat) (quality : Bool)
+    (i : Nat) (h : (enhancedSelect ls last now quality).2 = some i) :
+    ∃ s, ScoredAt ls now quality i s := by
+  obtain ⟨s, hs⟩ := selected_scored_any ls last now quality i h
+  exact ⟨s, (scoredAt_iff ls now quality i s).2 hs⟩
+
+/-- **Cap exclusion, scalar-generic** (monitor `capped-selected`; same content as
+`Srtla.Select.enhancedSelect_scored`): while an unconstrained link exists, the enhanced pass never
+returns a link over its in-flight cap — for every scalar instance, `Float` included, whatever the
+scores are. -/
+theorem C11_cap_excluded_generic (ls : List (SLink F)) (last : Option Nat) (now : Nat) (quality : Bool)
+    (i : Nat) (hu : anyUnconstrained ls now = true)
+    (h : (enhancedSelect ls last now quality).2 = some i) :
+    ∃ c, ls[i]? = some c ∧ capExceeded c = false := by
+  obtain ⟨c, hc, hs⟩ := Select.enhancedSelect_scored ls last now quality i h
+  refine ⟨c, hc, ?_⟩
+  unfold enhSkip at hs
+  simp only [Bool.or_eq_false_iff, Bool.and_eq_false_imp] at hs
+  exact hs.2 hu
+
+/-- In enhanced mode `any_unconstrained` can be evaluated on the state the call leaves behind (what
+a monitor sees) instead of on the post-guard list the loop saw: the loop only refreshes quality
+caches, which the predicate does not read. -/
+theorem C11_any_unconstrained_post (ls : List (SLink F)) (last : Option Nat) (now : Nat) (cfg : Cfg)
+    (hmode : cfg.classic = false) :
+    anyUnconstrained (selectIdx ls last now cfg).1 now = anyUnconstrained (applyStallGate ls now cfg) now := by
+  rw [selectIdx_enhanced ls last now cfg hmode, SelLemmas.enhancedSelect_fst, anyUnconstrained_map_upd]
+
+/-- **Cap exclusion at `select_connection_idx` level** (enhanced mode, any scalar instance):
+`any_unconstrained` is evaluated on the POST-GUARD list (a link the stall guard has just gated does
+not count as unconstrained).  If it holds, the returned index `i` is not over its in-flight cap —
+read on the caller's link `c`, on the post-guard link `cg`, or on the link `cp` the call leaves
+behind (the guard and the cache refresh touch none of CC target, `rtt_min`, in-flight). -/
+theorem C11_cap_excluded_select (ls : List (SLink F)) (last : Option Nat) (now : Nat) (cfg : Cfg) (i : Nat)
+    (hmode : cfg.classic = false)
+    (hu : anyUnconstrained (applyStallGate ls now cfg) now = true)
+    (h : (selectIdx ls last now cfg).2 = some i) :
+    ∃ c cg cp, ls[i]? = some c ∧ (applyStallGate ls now cfg)[i]? = some cg ∧
+      (selectIdx ls last now cfg).1[i]? = some cp ∧
+      capExceeded c = false ∧ capExceeded cg = false ∧ capExceeded cp = false := by
+  rw [selectIdx_enhanced ls last now cfg hmode] at h ⊢
+  obtain ⟨cg, hcg, hcap⟩ := C11_cap_excluded_generic _ last now cfg.quality i hu h
+  obtain ⟨c, hc, hcore, -⟩ := gate_getElem?_core hcg
+  refine ⟨c, cg, upd now cfg.quality (anyUnconstrained (applyStallGate ls now cfg) now) cg, hc, hcg, ?_, ?_,
+    hcap, ?_⟩
+  · rw [SelLemmas.enhancedSelect_fst, List.getElem?_map, hcg]; rfl
+  · rw [← capExceeded_of_core hcore]; exact hcap
+  · obtain ⟨q, t, hq⟩ := upd_QOnly now cfg.quality (anyUnconstrained (applyStallGate ls now cfg) now) cg
+    rw [hq]; exact hcap
+
+/-- Link 0: window 60000, but 500 packets in flight against a cap of
+`⌊1 Mbit/s × 50 ms / 8 × 1.5 / 1316⌋ = 7` packets; link 1: small window, no CC target —
+unconstrained.  (Fixed-point toy scalar `fixScalar`, values ×1000, so that `decide` can run the pass.) -/
+def exCap : List (SLink Int) :=
+  [ { connId := 1, window := 60000, inFlight := 500, lastReceived := some 4990, ccTarget := 1000000,
+      srtt := 0, rttMin := 50000, bitrate := 0, qualMult := 1000 },
+    { connId := 2, window := 1000, inFlight := 10, lastReceived := some 4990, srtt := 0, rttMin := 50000,
+      bitrate := 0, qualMult := 1000 } ]
+
+/-- Hypotheses of `C11_cap_excluded_generic` / `C11_cap_excluded_select` met; link 0 (score 119 even
+with 500 in flight, against 90) is passed over, also when it was the previous pick. -/
+example :
+    @anyUnconstrained Int fixScalar exCap 5000 = true ∧
+    @anyUnconstrained Int fixScalar (applyStallGate exCap 5000 {}) 5000 = true ∧
+    (exCap.map (@capExceeded Int fixScalar)) = [true, false] ∧
+    (@enhancedSelect Int fixScalar exCap (some 0) 5000 true).2 = some 1 ∧
+    (@selectIdx Int fixScalar exCap (some 0) 5000 {}).2 = some 1 ∧
+    -- without an unconstrained link the cap does not exclude: link 0 alone is returned
+    (@selectIdx Int fixScalar (exCap.take 1) none 5000 {}).2 = some 0 := by
+  decide +kernel
+
+end anyScalarGates
 
 /-! ## Score space (ordered field) -/
 
@@ -208,6 +293,40 @@ theorem C11_warming_at_80_percent (c : SLink F) (now : Nat) (quality anyUnc : Bo
   norm_num
   ring
 
+/-- **The per-link ratios, tied to the pass.**  Take the score table of one enhanced pass over `ls`
+(`ScoredAt ls now quality`, the table `enhanced::select_connection` maximises over; for
+`select_connection_idx` take `ls := applyStallGate … `, as in `C11_leave_only_if_select`).  For
+every scored index `i` with link `c` and entry `s`:
+* if the pass has an unconstrained link and `c` is weak or loss-degraded, `s` is exactly `0.02 ×`
+  the entry the same link gets in a pass without an unconstrained link (its ungated entry);
+* otherwise (no unconstrained link, or `c` neither weak nor loss-degraded) `s` IS the ungated entry;
+* if `c` is Warming, `s` carries the factor `0.8`: it is `0.8 ×` the entry of the same link, in the
+  same pass, once Live. -/
+theorem C11_pass_table_factors (ls : List (SLink F)) (now : Nat) (quality : Bool) (i : Nat) (s : F)
+    (c : SLink F) (hc : ls[i]? = some c) (h : @ScoredAt F 𝕊 ls now quality i s) :
+    (@anyUnconstrained F 𝕊 ls now = true → (c.weak = true ∨ c.lossDegraded = true) →
+        s = 0.02 * (@enhScore F 𝕊 c now quality false).2) ∧
+    ((@anyUnconstrained F 𝕊 ls now = false ∨ (c.weak = false ∧ c.lossDegraded = false)) →
+        s = (@enhScore F 𝕊 c now quality false).2) ∧
+    (∀ p t, c.phase = .warming p t →
+        s = 0.8 * (@enhScore F 𝕊 { c with phase := .live } now quality (@anyUnconstrained F 𝕊 ls now)).2) := by
+  obtain ⟨c', hc', -, hs⟩ := h
+  rw [hc] at hc'
+  cases hc'
+  subst hs
+  refine ⟨?_, ?_, ?_⟩
+  · intro hu hw
+    rw [hu]
+    exact C11_weak_at_2_percent e ninf c now quality hw
+  · rintro (hu | ⟨hw, hl⟩)
+    · rw [hu]
+    · rw [enhScore_formula, enhScore_formula]
+      have h1 : ∀ u, gateFactor (F := F) u c = 1 := by
+        intro u; unfold gateFactor; simp [hw, hl]
+      rw [h1, h1]
+  · intro p t hp
+    exact C11_warming_at_80_percent e ninf c now quality _ p t hp
+
 /-- **The selected link was scored** (monitor `unscored-selected`): whatever `last` is, the index
 returned by the enhanced pass is in range and was not skipped — in particular it is connected,
 schedulable, not timed out and not stall-gated, also when it is returned by the hysteresis. -/
@@ -309,6 +428,30 @@ example : ∃ c ∈ exLinks, c.weak = true ∧ (∃ p t, c.phase = .warming p t)
     c.connected = true ∧ c.stallGated = false ∧ 0 ≤ c.inFlight ∧ 0 ≤ c.queued ∧
     c.inFlight + c.queued < 2147483647 :=
   ⟨_, List.mem_cons_of_mem _ List.mem_cons_self, rfl, ⟨1, 99000, rfl⟩, by decide⟩
+
+/-- Hypotheses of `C11_pass_table_factors` met on the example: link 1 (weak, Warming) is scored by
+the pass at `now = 100000` (connected, not registering, heard 5 ms ago, not gated, 3 packets in flight
+against a cap of `⌊4 Mbit/s × 100 ms / 8 × 1.5 / 1316⌋ = 56`), and link 2 makes the pass
+"unconstrained".  So its table entry is `0.02 ×` its ungated entry and carries the factor `0.8`. -/
+example : ∃ s c, exLinks[1]? = some c ∧ @ScoredAt ℚ ratScalar exLinks 100000 true 1 s ∧
+    (c.weak = true ∨ c.lossDegraded = true) ∧ (∃ p t, c.phase = .warming p t) ∧
+    @anyUnconstrained ℚ ratScalar exLinks 100000 = true := by
+  have hcap : @capExceeded ℚ ratScalar exLinks[1] = false := by
+    simp only [exLinks, List.getElem_cons_succ, List.getElem_cons_zero, capExceeded, inFlightCap]
+    norm_num [Scalar.isFinite, Scalar.gt, Scalar.lt, Scalar.lit, Scalar.ofNat, Scalar.div, Scalar.mul,
+      Scalar.fmax, Scalar.fmin, Scalar.floor, Scalar.toNatSat, Enhanced.IN_FLIGHT_CAP_BDP_MULT_num,
+      Enhanced.IN_FLIGHT_CAP_BDP_MULT_den, LinkCc.ASSUMED_SRT_PAYLOAD_BYTES]
+  have hu : @anyUnconstrained ℚ ratScalar exLinks 100000 = true := by
+    unfold anyUnconstrained
+    refine List.any_eq_true.2 ⟨exLinks[2], by simp [exLinks], ?_⟩
+    have h0 : @capExceeded ℚ ratScalar exLinks[2] = false := by
+      simp [exLinks, capExceeded, inFlightCap]
+    rw [h0]
+    decide
+  refine ⟨_, exLinks[1], rfl, ⟨exLinks[1], rfl, ?_, rfl⟩, Or.inl rfl, ⟨1, 99000, rfl⟩, hu⟩
+  unfold enhSkip
+  rw [hcap]
+  decide
 
 /-- `C11_idempotent` / `C11_stable` need only `0 < now`; they apply verbatim to the `Float`
 instance the compiled driver (and hence the correspondence check) runs. -/
